@@ -68,7 +68,9 @@ class Osim:
 
 def log_hash(resp):
     """Hash that defines 'the same execution': everything the child logged plus how it ended."""
-    return stable_hash({'log': resp.get('log'), 'exit': resp.get('exit'), 'sig': resp.get('sig'), 'stdout': resp.get('stdout')})
+    # 'allocs' (number of heap-layer allocations) is excluded: it counts the harness's own temp-file path handling too
+    log = [{k: v for k, v in e.items() if k != 'allocs'} if isinstance(e, dict) and 'allocs' in e else e for e in resp.get('log', [])]
+    return stable_hash({'log': log, 'exit': resp.get('exit'), 'sig': resp.get('sig'), 'stdout': resp.get('stdout')})
 
 
 def death_of(resp):
